@@ -327,4 +327,6 @@ func main() {
 		}
 	}()
 	partAPIStaged(r)
+	partPdfStaged(r)
+	partWholeOps(r)
 }
